@@ -56,6 +56,11 @@ func q(s string) string { return constant.MakeString(s).ExactString() }
 
 func ruleSTREVAL(p *Program) *RuleResult {
 	r := newResult("STR-EVAL")
+	strPool := strPool
+	if thoroughTier {
+		// longer and more varied texts: mixed widths at every position, repeated patterns, combining marks, surrogate-range code points
+		strPool = append(append([]string{}, strPool...), "a日b本c", "日a本b語", "😀😀", "e\u0301e\u0301", "ǅz", "ßẞ", "aaa", "abab", "\U0001F468\u200d\U0001F469", "İi", " tab\t")
+	}
 	st, err := systemTypes(p)
 	if err != nil {
 		return r.anchorFail(err)
